@@ -271,6 +271,11 @@ def gen_scenario(r, nreq=None):
     reqs = []
     for i in range(n):
         k = r.random()
+        if reqs and r.random() < 0.12:
+            # the same request again, verbatim, later in the session
+            rq = copy.deepcopy(r.choice(reqs))
+            if rq['path'].endswith('/api/closetool'): rq = gen_nb_request(r, 'diff', ['base', 'remote'], prefix)
+            reqs.append(rq); continue
         if k < 0.3: rq = gen_nb_request(r, 'diff', ['base', 'remote'], prefix)
         elif k < 0.5: rq = gen_nb_request(r, 'merge', ['base', 'local', 'remote'], prefix)
         elif k < 0.75: rq = gen_store_request(r, nbs, prefix)
@@ -280,6 +285,30 @@ def gen_scenario(r, nreq=None):
             rq = gen_close_request(r, prefix) if (i >= n - 2 or r.random() < 0.3) else gen_nb_request(r, 'diff', ['base', 'remote'], prefix)
         if rq['method'] == 'GET': rq.pop('body', None)
         reqs.append(rq)
+    return {'op': 'serve', 'start': start, 'files': files, 'requests': reqs}
+
+
+def gen_history_scenario(r):
+    """sessions in which the output file is also an input: identical diff / merge requests before and after a store
+    must see the new content (no caching by name), and an identical store twice must be idempotent"""
+    files, nbs = gen_files(r)
+    bu = r.choice(['/', '/', '/nb/'])
+    prefix = '' if bu == '/' else bu.rstrip('/')
+    start = {'mode': 'mergeweb', 'chdir': 'work',
+             'params': {'port': 0, 'ip': '127.0.0.1', 'base_url': bu, 'cwd': '{ROOT}/work', 'outputfilename': r.choice(['out.ipynb', './out.ipynb', 'sub/out.ipynb']),
+                        'closable': r.choice([True, False])}}
+    outarg = start['params']['outputfilename']
+    def diff(): return {'method': 'POST', 'path': prefix + '/api/diff', 'kind': 'diff:valid-names',
+                        'body': jbody(r.choice([{'base': outarg, 'remote': 'a.ipynb'}, {'base': 'b.ipynb', 'remote': outarg}]))}
+    def merge(): return {'method': 'POST', 'path': prefix + '/api/merge', 'kind': 'merge:valid-names',
+                         'body': jbody({'base': 'a.ipynb', 'local': outarg, 'remote': r.choice(['b.ipynb', 'c.ipynb'])})}
+    def store(): return {'method': 'POST', 'path': prefix + '/api/store', 'kind': 'store:valid',
+                         'body': jbody({'merged': mutate_nb(r, r.choice([nbs['a'], nbs['b'], nbs['c']]))})}
+    d, m, s1, s2 = diff(), merge(), store(), store()
+    seq = r.choice([[d, s1, d, m, s2, m, d], [m, s1, m, s1, d, s2, d], [d, d, s1, d, s2, d], [s1, d, s1, d, m, s2, m]])
+    reqs = [copy.deepcopy(x) for x in seq]
+    if r.random() < 0.5: reqs.insert(r.randint(1, len(reqs) - 1), gen_store_request(r, nbs, prefix))
+    if r.random() < 0.3: reqs.append(gen_close_request(r, prefix))
     return {'op': 'serve', 'start': start, 'files': files, 'requests': reqs}
 
 
